@@ -183,13 +183,29 @@ def plan(tier: str) -> list[dict]:
         jobs.append({'engine': 'pairs', 'n': 400 if q else 15000, 'hashseed': i % 8, 'xseed': True})
     for i in range(6):
         jobs.append({'engine': 'bulk', 'n': 6 if q else 200, 'hashseed': (3 + i) % 8, 'xseed': True})
+    jobs.append({'engine': 'main-script', 'n': 3 if q else 40, 'hashseed': 1})
     return jobs
+
+
+def check_main_script(case: dict) -> core.CaseResult:
+    """"The same key in every process, also after pickling" for task types defined in the __main__ of a user script: spawn workers
+    re-import that script as __mp_main__, so a key that is recomputed there instead of travelling with the task comes out different.
+    Runs pbt/mainscript.py (shared with C06) as a script with the spawn backend; the oracle here is about keys only: the key every
+    worker saw for a task == the key the caller sees == the directory the entry was written to."""
+    from . import c06
+    r = c06.check_main_script({**case, 'b1': 'spawn'})
+    r.findings = [core.Finding(f.signature.replace('C06:', 'C07:'), f.detail) for f in r.findings
+                  if 'cache_key-in-worker-differs' in f.signature or 'key-directories-differ' in f.signature]
+    return r
 
 
 def run_job(rec: core.Recorder, job: dict, seed: int) -> None:
     # the cross-process list depends on VERIF_SEED only (rec.seed), not on the shard
     xproc_keys(rec, rec.seed, 40 if rec.tier == 'quick' else 600)
-    if job['engine'] == 'pairs':
+    if job['engine'] == 'main-script':
+        from . import c06
+        core.run_hypothesis(rec, 'main-script', c06.main_script_case(), check_main_script, max_examples=job['n'], seed=seed, shrink=False)
+    elif job['engine'] == 'pairs':
         core.run_hypothesis(rec, 'pairs', ptrees.mutated_pair(max_leaves=10), check_pair, max_examples=job['n'], seed=seed)
     else:
         core.run_hypothesis(rec, 'bulk', st.lists(ptrees.task_tree(max_leaves=8), min_size=20, max_size=120), check_bulk,
@@ -201,6 +217,8 @@ def replay(record: dict) -> core.CaseResult:
     if record.get('engine') == 'cross-process':
         f, k = key_facts(case, storage())
         return core.CaseResult(findings=f, summary={'key': k})
+    if isinstance(case, dict) and 'leaves' in case:
+        return check_main_script(case)
     if isinstance(case, dict) and 'a' in case:
         return check_pair(case)
     return check_bulk(case)
